@@ -482,7 +482,8 @@ func decodeKeyByBitmapUint8Stream(d *structDecoder, s *Stream) (*structFieldSet,
 					if err != nil {
 						return nil, "", err
 					}
-					cursor = s.cursor
+					// decoding the escape may have refilled ( and reallocated ) the buffer
+					_, cursor, p = s.stat()
 					for _, c := range chars {
 						curBit &= bitmap[keyIdx][largeToSmallTable[c]]
 						if curBit == 0 {
@@ -569,7 +570,8 @@ func decodeKeyByBitmapUint16Stream(d *structDecoder, s *Stream) (*structFieldSet
 					if err != nil {
 						return nil, "", err
 					}
-					cursor = s.cursor
+					// decoding the escape may have refilled ( and reallocated ) the buffer
+					_, cursor, p = s.stat()
 					for _, c := range chars {
 						curBit &= bitmap[keyIdx][largeToSmallTable[c]]
 						if curBit == 0 {
